@@ -34,7 +34,7 @@ Definition view_fresh (su : setup) (init : obs) (st : list istep) : bool :=
   forallb (fun x =>
     negb (o_mon (i_obs x) =? 0) ||
     cfg3_eqb (snd (o_val (i_obs x)))
-             (spec_view (stack3 (su_def su)) verify3 (map snd (su_srcs su)) (snd (o_val init))
+             (spec_view (stack3 (su_def su)) (verifyS su) (map snd (su_srcs su)) (snd (o_val init))
                         (p_delay (su_p su)) (received st (i_idx x)))) st.
 
 Fixpoint increasing (lo : option N) (l : list N) : bool :=
